@@ -18,6 +18,9 @@ def main():
     except ModuleNotFoundError as e:
         print(f"INFRA-ERROR property={pid}: no check module ({e})")
         return 2
+    except core.InfraError as e:
+        print(f"INFRA-ERROR property={pid}: {e}")
+        return 2
     try:
         import spacepackets
         if not os.path.abspath(spacepackets.__file__).startswith(os.path.abspath(core.REPO)):
